@@ -18,6 +18,8 @@ pub enum ThState {
     Waiting(u8),
     /// not released yet (thread 0 is still in its prelude)
     Held,
+    /// arrived at a lock acquisition while another (descheduled) thread holds a lock
+    BlockedOnLock,
     Done,
 }
 
@@ -39,11 +41,12 @@ pub fn site_code(site: Site) -> u8 {
         Site::StrongCount => 9,
         Site::AfterAtomic => 10,
         Site::AfterLock => 11,
-        Site::EnterCritical | Site::ExitCritical => 12,
+        Site::LockHeld => 12,
+        Site::EnterCritical | Site::ExitCritical => 13,
     }
 }
 
-pub const ALL_SITES: u16 = 0xfff;
+pub const ALL_SITES: u16 = 0x1fff;
 
 struct Inner {
     current: Option<usize>,
@@ -65,6 +68,9 @@ struct Inner {
     capped: bool,
     deadlock: bool,
     all_done: bool,
+    /// the thread that was descheduled inside a lock (it holds a real mutex)
+    lock_holder: Option<usize>,
+    lock_contended: u64,
 }
 
 pub struct Sched {
@@ -87,6 +93,7 @@ pub struct SchedStats {
     pub choices: Vec<u8>,
     pub capped: bool,
     pub deadlock: bool,
+    pub lock_contended: u64,
 }
 
 thread_local! {
@@ -141,6 +148,8 @@ impl Sched {
                 capped: false,
                 deadlock: false,
                 all_done: false,
+                lock_holder: None,
+                lock_contended: 0,
             }),
             cvs: (0..n_threads).map(|_| Condvar::new()).collect(),
             done_cv: Condvar::new(),
@@ -249,6 +258,56 @@ impl Sched {
         }
     }
 
+    /// A yield point while holding a real lock: other threads are kept away from lock acquisitions
+    /// until `lock_released`.
+    pub fn yield_holding_lock(&self, me: usize) {
+        {
+            let mut g = self.lock();
+            g.lock_holder = Some(me);
+        }
+        self.yield_now(me, 12);
+    }
+
+    pub fn lock_released(&self, me: usize) {
+        let mut g = self.lock();
+        if g.lock_holder == Some(me) {
+            g.lock_holder = None;
+            for s in g.states.iter_mut() {
+                if *s == ThState::BlockedOnLock {
+                    *s = ThState::Runnable;
+                }
+            }
+        }
+    }
+
+    /// Called at a lock acquisition site after the ordinary yield: if a descheduled thread holds a
+    /// lock, wait (in simulation) until it has released it.
+    pub fn acquire_gate(&self, me: usize) {
+        let mut g = self.lock();
+        while matches!(g.lock_holder, Some(h) if h != me) {
+            g.lock_contended += 1;
+            g.states[me] = ThState::BlockedOnLock;
+            g.steps += 1;
+            match Self::choose(&mut g, None) {
+                Some(next) => {
+                    g.switches += 1;
+                    g.sig.add(((me as u64) << 8) | 0xfd);
+                    g.sig.add(next as u64);
+                    g.current = Some(next);
+                    self.cvs[next].notify_one();
+                }
+                None => {
+                    g.deadlock = true;
+                    g.states[me] = ThState::Runnable;
+                    return;
+                }
+            }
+            while g.current != Some(me) {
+                g = self.cvs[me].wait(g).unwrap_or_else(|p| p.into_inner());
+            }
+        }
+    }
+
     /// Block until all threads of `mask` are done.
     pub fn wait_threads(&self, me: usize, mask: u8) {
         let mut g = self.lock();
@@ -350,33 +409,72 @@ impl Sched {
             choices: g.choices.clone(),
             capped: g.capped,
             deadlock: g.deadlock,
+            lock_contended: g.lock_contended,
         }
     }
 }
 
 /// The process-global hook installed into unimock.
 pub fn unimock_hook(site: Site) {
+    let target = |code: u8| {
+        crate::ctx::TL.with(|tl| match tl.try_borrow() {
+            Ok(b) => b.as_ref().and_then(|t| {
+                if t.run.sched.fine && t.run.sched.sites & (1 << code) != 0 {
+                    Some((t.run.clone(), t.tid as usize))
+                } else {
+                    None
+                }
+            }),
+            Err(_) => None,
+        })
+    };
     match site {
         Site::EnterCritical => CRIT.with(|c| c.set(c.get() + 1)),
-        Site::ExitCritical => CRIT.with(|c| c.set(c.get().saturating_sub(1))),
+        Site::ExitCritical => {
+            let depth = CRIT.with(|c| {
+                c.set(c.get().saturating_sub(1));
+                c.get()
+            });
+            if depth == 0 {
+                // whatever lock this thread held is released by now
+                let t = crate::ctx::TL.with(|tl| match tl.try_borrow() {
+                    Ok(b) => b.as_ref().map(|t| (t.run.clone(), t.tid as usize)),
+                    Err(_) => None,
+                });
+                if let Some((run, tid)) = t {
+                    if run.sched.fine {
+                        run.sched.lock_released(tid);
+                    }
+                }
+            }
+        }
+        Site::LockHeld => {
+            // the only yield point inside a critical region; only at nesting depth 1 (a once-cell
+            // initialiser that takes a lock must not be descheduled)
+            if CRIT.with(|c| c.get()) == 1 {
+                if let Some((run, tid)) = target(site_code(site)) {
+                    run.sched.yield_holding_lock(tid);
+                }
+            }
+        }
         site => {
             if CRIT.with(|c| c.get()) != 0 {
                 return;
             }
             let code = site_code(site);
-            // find the run this thread belongs to; threads outside a run pass through
-            let target = crate::ctx::TL.with(|tl| match tl.try_borrow() {
-                Ok(b) => b.as_ref().and_then(|t| {
-                    if t.run.sched.fine && t.run.sched.sites & (1 << code) != 0 {
-                        Some((t.run.clone(), t.tid as usize))
-                    } else {
-                        None
-                    }
-                }),
-                Err(_) => None,
-            });
-            if let Some((run, tid)) = target {
+            if let Some((run, tid)) = target(code) {
                 run.sched.yield_now(tid, code);
+            }
+            if site == Site::Lock {
+                let t = crate::ctx::TL.with(|tl| match tl.try_borrow() {
+                    Ok(b) => b.as_ref().map(|t| (t.run.clone(), t.tid as usize)),
+                    Err(_) => None,
+                });
+                if let Some((run, tid)) = t {
+                    if run.sched.fine {
+                        run.sched.acquire_gate(tid);
+                    }
+                }
             }
         }
     }
@@ -384,4 +482,16 @@ pub fn unimock_hook(site: Site) {
 
 pub fn install_hook() {
     unimock::verif::set_yield_hook(unimock_hook);
+}
+
+/// A yield point inside user code the mock calls (matchers, answer functions, real functions):
+/// user code may take arbitrarily long, so in the fine world it is a scheduling decision too.
+pub fn user_yield() {
+    let target = crate::ctx::TL.with(|tl| match tl.try_borrow() {
+        Ok(b) => b.as_ref().and_then(|t| if t.run.sched.fine { Some((t.run.clone(), t.tid as usize)) } else { None }),
+        Err(_) => None,
+    });
+    if let Some((run, tid)) = target {
+        run.sched.yield_now(tid, SITE_EXEC);
+    }
 }
